@@ -260,6 +260,10 @@ pub fn run_c04(ctx: &Ctx) -> i32 {
         v3.len()
     );
     vio.extend(v3);
+    // (d) files of 1 MiB + 5 and 3 MiB
+    let (bn, bv) = big_file_sessions("C04", &[HB::Mem, HB::Phys, HB::AltMem, HB::OvUpper, HB::OvLower]);
+    println!("  [append sessions on files of 1 MiB + 5 and 3 MiB, observed after open / flush / drop] cases={} violations={}", bn, bv.len());
+    vio.extend(bv);
     let bfs_states: u64 = stats.iter().map(|s| s.states).sum();
     let bfs_trans: u64 = stats.iter().map(|s| s.transitions).sum();
     let mut counts = BTreeMap::new();
